@@ -151,9 +151,9 @@ def sums (x y : List α) : Sums α :=
     (fun s p => ⟨s.sx + p.1, s.sy + p.2, s.sxy + p.1 * p.2, s.sxx + p.1 * p.1, s.syy + p.2 * p.2⟩)
     ⟨Fn.ofNat 0, Fn.ofNat 0, Fn.ofNat 0, Fn.ofNat 0, Fn.ofNat 0⟩
 
-/-- `_pearson_corr`: `(n Σxy − Σx Σy) / sqrt((n Σx² − (Σx)²)(n Σy² − (Σy)²))` -/
-def pearson (x y : List α) : α :=
-  let n : α := Fn.ofNat x.length
+/-- the tail of `_pearson_corr` on the data the sums run over, `n = x.size()` converted to real:
+`(n Σxy − Σx Σy) / sqrt((n Σx² − (Σx)²)(n Σy² − (Σy)²))` -/
+def moments (n : α) (x y : List α) : α :=
   let s := sums x y
   let sxy := s.sxy * n
   let sxx := s.sxx * n
@@ -161,6 +161,22 @@ def pearson (x y : List α) : α :=
   let den := sxy - s.sx * s.sy
   let num := Fn.sqrt ((sxx - s.sx * s.sx) * (syy - s.sy * s.sy))
   den / num
+
+/-- first pass of `_pearson_corr`: `mean = 0; mean += x[i]; mean /= n`, then the centred sample `x[i] - mean`
+(the `dx` / `dy` of the second loop) -/
+def centre (n : α) (x : List α) : List α :=
+  let m := x.foldl (· + ·) (Fn.ofNat 0) / n
+  x.map (fun t => t - m)
+
+/-- `_pearson_corr` (since the repair a57e73f): the moment formula evaluated on the CENTRED samples; the code still
+subtracts `sum_x * sum_y` (zero up to rounding) and so does the model -/
+def pearson (x y : List α) : α :=
+  let n : α := Fn.ofNat x.length
+  moments n (centre n x) (centre n y)
+
+/-- the moment formula on the raw samples (what the code evaluated before the repair); over the reals it is the same
+number (`Props/C16: pearson_eq_pearsonM`), in floating point it cancels for data with an offset -/
+def pearsonM (x y : List α) : α := moments (Fn.ofNat x.length) x y
 
 variable [LT α] [DecidableRel (· < · : α → α → Prop)]
 
